@@ -415,7 +415,7 @@ func genSupers(rng *common.Rng, rank []int, j int, undefined []int) []int {
 func Run(ctx *common.Ctx) {
 	ncases := 640
 	if ctx.Thorough() {
-		ncases = 8000
+		ncases = 3000 // the class registry only grows and defclass scans it: run time is quadratic
 	}
 	var terms []string
 	var descs []any
